@@ -6,7 +6,7 @@ import re
 
 from harness import tlc
 
-ALL_SHAPES = ['single', 'multi', 'multi_sp', 'multi_dig', 'lf', 'multi_lf', 'cr_in', 'other']
+ALL_SHAPES = ['single', 'multi', 'multi_sp', 'multi_dig', 'lf', 'multi_lf', 'cr_in', 'cr_code', 'other']
 ALPHABET = {'P': 97, 'CR': 13, 'LF': 10, 'NUL': 0, 'SP': 32, 'PCT': 37}
 A1 = b'(10,0,0,1,4,1)'
 A2 = b'(10,0,0,1,4,2)'
@@ -31,6 +31,7 @@ def shape_bytes(code, text, shape):
         'lf': d + b' ' + t + b'\n',
         'multi_lf': d + b'-x\n' + d + b' ' + t + b'\n',
         'cr_in': d + b' q\r' + t + b'\r\n',
+        'cr_code': d + b' q\r' + d + b' ' + t + b'\r\n',
         'other': d + b'-x\r\n299 w\r\n' + d + b' ' + t + b'\r\n',
     }[shape]
 
